@@ -85,14 +85,6 @@ def World.remove (w : World) (k : Str) : World := { w with cache := w.cache.filt
 
 def World.log (w : World) (c : Str) : World := { w with calls := w.calls ++ [c] }
 
-/-- the contexts above the current one: (text their progress metadata is filed under, do they write to the cache at all) -/
-abbrev Ancestors := List (Str × Bool)
-
-/-- a log event in a context is passed up the chain of parent contexts (`log_child_dict`): each of them rewrites its own
-progress metadata (status still some progress status, never `ready`) -/
-def World.ancMeta (w : World) (anc : Ancestors) : World :=
-  anc.foldl (fun w a => if a.2 then w.storeMeta a.1 (s "evaluation") else w) w
-
 /-- extra parameters of the top-level call -/
 inductive Extra where
   | none
@@ -162,18 +154,18 @@ def cmdVolatile (cmd : List (Str × Str)) : Bool := cmd.any (fun kv => kv.1 == s
 
 mutual
   /-- `Context.evaluate(text)`: parse, then evaluate -/
-  def evalText (env : Env) : Nat → World → Str → Bool → Ancestors → World × Outcome
-    | 0, w, _, _, _ => (w, .unmodelled)
-    | n + 1, w, text, useGlobal, anc =>
+  def evalText (env : Env) : Nat → World → Str → Bool → World × Outcome
+    | 0, w, _, _ => (w, .unmodelled)
+    | n + 1, w, text, useGlobal =>
       match parse env.dec text with
       | none => (w, .parseError)
-      | some q => evalQ env n w q text .none none useGlobal anc
+      | some q => evalQ env n w q text .none none useGlobal
 
   /-- `Context.evaluate(query)` with `rawQuery` the text metadata is filed under; `useCache = false` models the
   `NoCache()` that an injected input value / `evaluate_on` selects for this chain of predecessors -/
-  def evalQ (env : Env) : Nat → World → Query → Str → Extra → Option Val → Bool → Ancestors → World × Outcome
-    | 0, w, _, _, _, _, _, _ => (w, .unmodelled)
-    | n + 1, w, q, rawQuery, extra, input, useCache, anc =>
+  def evalQ (env : Env) : Nat → World → Query → Str → Extra → Option Val → Bool → World × Outcome
+    | 0, w, _, _, _, _, _ => (w, .unmodelled)
+    | n + 1, w, q, rawQuery, extra, input, useCache =>
       let tbl := Gen.escapeTable
       let key := q.encode tbl
       let hit : Option EState := if extra.isEmpty && input.isNone && useCache then w.get key else none
@@ -192,7 +184,7 @@ mutual
             else
               let pk := p.encode tbl
               let w0 := if useCache then w.storeMeta rawQuery (s "evaluating parent") else w
-              let (w1, o) := evalQ env n w0 p pk .none input useCache ((rawQuery, useCache) :: anc)
+              let (w1, o) := evalQ env n w0 p pk .none input useCache
               (w1, o, pk, r)
         let (o, parentQuery, r) := pre
         match o with
@@ -214,7 +206,7 @@ mutual
                         else if st2.caching && !st2.volatile then w1.store st2 else w1.remove key
               (w2, .st st2)
             | some (.transform _ [a] none) =>
-              let (w2, o2) := evalAction env n w1 st a rawQuery parentQuery extra useCache anc
+              let (w2, o2) := evalAction env n w1 st a rawQuery parentQuery extra useCache
               (match o2 with
                | .st st2 =>
                  let st3 := { st2 with query := key }
@@ -227,14 +219,14 @@ mutual
             | some _ => (w1, .unmodelled)
 
   /-- `Context.evaluate_action` for a command action -/
-  def evalAction (env : Env) : Nat → World → EState → Action → Str → Str → Extra → Bool → Ancestors → World × Outcome
-    | 0, w, _, _, _, _, _, _, _ => (w, .unmodelled)
-    | n + 1, w, st, act, rawQuery, parentQuery, extra, useCache, anc =>
+  def evalAction (env : Env) : Nat → World → EState → Action → Str → Str → Extra → Bool → World × Outcome
+    | 0, w, _, _, _, _, _, _ => (w, .unmodelled)
+    | n + 1, w, st, act, rawQuery, parentQuery, extra, useCache =>
       let tbl := Gen.escapeTable
       let w := if useCache then w.storeMeta rawQuery (s "evaluation") else w
       let cmds := [act.toList tbl]
       let failAt (w : World) (attrs : List (Str × Str)) (vol : Bool) (pos : Option Nat) (q : Option Str) : World × Outcome :=
-        (((if useCache then w.storeMeta rawQuery (s "error") else w).ancMeta anc), .st { st with data := .none, isError := true, status := s "error", commands := cmds, attrs := attrs, volatile := st.volatile || vol, errPos := pos, errQuery := q })
+        ((if useCache then w.storeMeta rawQuery (s "error") else w), .st { st with data := .none, isError := true, status := s "error", commands := cmds, attrs := attrs, volatile := st.volatile || vol, errPos := pos, errQuery := q })
       let failState (w : World) (attrs : List (Str × Str)) (vol : Bool) : World × Outcome :=
         failAt w attrs vol (some act.pos) (some rawQuery)
       match namespacesOf st.vars with
@@ -245,9 +237,9 @@ mutual
         | none => failState w (mergeAttrs st.attrs []) false
         | some sig =>
           -- parameters, left to right
-          match evalParams env n w act.params rawQuery parentQuery useCache anc with
+          match evalParams env n w act.params rawQuery parentQuery with
           | (w1, .inr o) => (w1, o)
-          | (w1, .inl (given, selfOn)) =>
+          | (w1, .inl given) =>
             let (given, kwargs, extraVol) : List PVal × List (Str × Val) × Bool :=
               match extra with
               | .none => (given, [], false)
@@ -262,7 +254,7 @@ mutual
               let w2 := if isLibraryCommand sig.name then w1
                         else w1.log (callText sig.ns sig.name (if sig.first then .none else st.data) args)
               let done (w : World) (v : Val) (vars : Vars) (caching : Bool) : World × Outcome :=
-                (((if useCache then w.storeMeta rawQuery statusReady else w).ancMeta anc), .st { st with data := v, vars := st.vars.update vars, status := statusReady, commands := cmds, attrs := attrs, caching := caching && st.caching, volatile := st.volatile || extraVol || cmdVolatile sig.attrs })
+                ((if useCache then w.storeMeta rawQuery statusReady else w), .st { st with data := v, vars := st.vars.update vars, status := statusReady, commands := cmds, attrs := attrs, caching := caching && st.caching, volatile := st.volatile || extraVol || cmdVolatile sig.attrs })
               match cmdSem sig.ns sig.name st.data st.vars args with
               | .unmodelled => (w2, .unmodelled)
               | .raises => failState w2 attrs (extraVol || cmdVolatile sig.attrs)
@@ -271,8 +263,7 @@ mutual
               | .nocache v => done w2 v [] false
               | .subeval x qtext =>
                 -- `context.evaluate(q)` from inside the command: a child context on the global cache
-                let (w3, o) := evalText env n w2 qtext true ((rawQuery, selfOn) :: anc)
-                let w3 := if selfOn then w3.storeMeta rawQuery (s "evaluation") else w3
+                let (w3, o) := evalText env n w2 qtext true
                 (match o with
                  | .st sub =>
                    -- a failing sub-evaluation is reported with the position / query of *its* failing action
@@ -282,14 +273,14 @@ mutual
                  | .unmodelled => (w3, .unmodelled))
 
   /-- `evaluate_parameter` over the parameter list: converted parameters, or the outcome that aborts the evaluation -/
-  def evalParams (env : Env) : Nat → World → List Param → Str → Str → Bool → Ancestors → World × ((List PVal × Bool) ⊕ Outcome)
-    | 0, w, _, _, _, _, _ => (w, .inr .unmodelled)
-    | _ + 1, w, [], _, _, selfOn, _ => (w, .inl ([], selfOn))
-    | n + 1, w, p :: ps, rawQuery, parentQuery, selfOn, anc =>
+  def evalParams (env : Env) : Nat → World → List Param → Str → Str → World × (List PVal ⊕ Outcome)
+    | 0, w, _, _, _ => (w, .inr .unmodelled)
+    | _ + 1, w, [], _, _ => (w, .inl [])
+    | n + 1, w, p :: ps, rawQuery, parentQuery =>
       match p with
       | .str t pos =>
-        (match evalParams env n w ps rawQuery parentQuery selfOn anc with
-         | (w1, .inl (rest, on)) => (w1, .inl (.text t pos :: rest, on))
+        (match evalParams env n w ps rawQuery parentQuery with
+         | (w1, .inl rest) => (w1, .inl (.text t pos :: rest))
          | other => other)
       | .link lq pos =>
         let tbl := Gen.escapeTable
@@ -297,7 +288,7 @@ mutual
         let wg := w
         let (w1, o) : World × Outcome :=
           if lq.absolute || parentQuery.isEmpty || parentQuery == ['/'] then
-            evalQ env n wg lq (lq.encode tbl) .none none true ((rawQuery, selfOn) :: anc)
+            evalQ env n wg lq (lq.encode tbl) .none none true
           else
             match lq with
             | .mk [.transform h as f] _ =>
@@ -306,17 +297,14 @@ mutual
                | none => (wg, .unmodelled)
                | some pq =>
                  let text := (Query.mk (pq.segments ++ [.transform h as f]) pq.absolute).encode tbl
-                 evalText env n wg text true ((rawQuery, selfOn) :: anc))
+                 evalText env n wg text true)
             | _ => (wg, .unmodelled)      -- "Only transform query supported in apply" (raises a plain Exception)
         match o with
         | .st v =>
-          -- after a sub-evaluation the context writes its progress once more (`store_metadata(force=True)`) and then switches its own
-          -- progress writes off (`enable_store_metadata = False`); log events still travel up to the contexts above
-          let w1 := if selfOn then w1.storeMeta rawQuery (s "evaluating dependencies") else w1
-          if v.isError then ((w1.ancMeta anc), .inr (.raised (some pos) (some rawQuery)))
+          if v.isError then (w1, .inr (.raised (some pos) (some rawQuery)))
           else
-            (match evalParams env n w1 ps rawQuery parentQuery false anc with
-             | (w2, .inl (rest, on)) => (w2, .inl (.expanded v.data pos :: rest, on))
+            (match evalParams env n w1 ps rawQuery parentQuery with
+             | (w2, .inl rest) => (w2, .inl (.expanded v.data pos :: rest))
              | other => other)
         | .raised a b => (w1, .inr (.raised a b))
         | .parseError => (w1, .inr .parseError)
